@@ -69,7 +69,7 @@ def sem_impls(sem):
 
 
 def node(imp, name):
-    for x in imp[3:]:
+    for x in imp[1:]:
         if isinstance(x, list) and x and x[0] == name:
             return x
     return None
